@@ -262,32 +262,66 @@ def analyse(run, m, F, E, L, f):
 
 
 def funnel(run, m, F, E, L):
-    """R16.3: every operator<< reaches append / append_char and writes the stream only through them."""
+    """R16.3: every operator<< writes the stream only through the verified members append / append_char - directly or through
+    helper members / other insertion operators that themselves do.  An inserter that stores into the stream itself is not a
+    finding: it is handed to the invariant analysis (R16.1) like any other mutating member, and its model clause stays undecided."""
     n = 0
     core = set()
+    members = {}
     for name in F.lib:
         f = m.func(name)
+        if class_of(f) != L.cls:
+            continue
+        members[name] = f
         if f.dem.startswith('ST::string_stream::append(') or f.dem.startswith('ST::string_stream::append_char('):
             core.add(name)
     run.need(len(core) >= 2, 'string_stream::append / append_char not found')
-    for name in F.lib:
-        f = m.func(name)
+    own_writes = {}
+    for name, f in members.items():
+        if 'this' not in own.func_roles(f) and not f.dem.startswith('ST::string_stream::'):
+            continue
+        try:
+            ex = E.explain(name, f.this_index())
+        except Exception:
+            ex = None
+        own_writes[name] = ex
+    clean = set(core)
+    changed = True
+    while changed:
+        changed = False
+        for name, ex in own_writes.items():
+            if name in clean or ex is None:
+                continue
+            ok = True
+            for (i, kind) in ex:
+                if not kind.startswith('call '):
+                    ok = False
+                    break
+                callee = i.callee if i.op in ('call', 'invoke') else None
+                tg = m.resolve(callee) if callee and hasattr(m, 'resolve') else callee
+                if tg not in clean:
+                    ok = False
+                    break
+            if ok and ex:
+                clean.add(name)
+                changed = True
+    direct = []
+    for name, f in sorted(members.items(), key=lambda x: x[1].dem):
         if not f.dem.startswith('ST::string_stream::operator<<('):
             continue
         n += 1
-        direct = set(t for (i, ts, k) in F.calls[name] for t in ts)
-        reaches = direct & core
-        # own stores through `this` (not via append/append_char) would bypass the model
-        ex = [(i, kind) for (i, kind) in E.explain(name, f.this_index())
-              if not (kind.startswith('call ST::string_stream::append') or kind.startswith('call ST::string_stream::operator<<'))]
-        if not reaches and not any(m.dem(t).startswith('ST::string_stream::operator<<(') for t in direct):
-            run.ob('R16.3', short(f.dem), False, 'insertion operator does not reach append/append_char', loc=fn_loc(f))
-        elif ex:
-            run.ob('R16.3', short(f.dem), False, 'insertion operator writes the stream outside append/append_char: %s' %
-                   '; '.join('%s %s' % (f.loc(i), k) for i, k in ex[:2]), loc=fn_loc(f))
+        ex = own_writes.get(name)
+        if name in clean:
+            via = sorted(set(k[5:].split('(')[0] for (i, k) in ex))
+            run.ob('R16.3', short(f.dem), True, 'writes the stream only through %s' % ', '.join(via))
+        elif not ex:
+            run.ob('R16.3', short(f.dem), None, 'no write to the stream found in this insertion operator: what it appends is not analysed', loc=fn_loc(f))
         else:
-            run.ob('R16.3', short(f.dem), True, 'writes the stream only through %s' % ', '.join(sorted(m.dem(t).split('(')[0] for t in reaches)))
-    return n
+            st = [(i, k) for (i, k) in ex if not k.startswith('call ')]
+            direct.append(f)
+            run.ob('R16.3', short(f.dem), None, 'writes the stream outside append/append_char (%s): its class invariant is analysed by R16.1, its model clause is not established' %
+                   '; '.join('%s %s' % (f.loc(i), k) for i, k in (st or ex)[:2]), loc=fn_loc(f))
+    return n, direct, clean - core
 
 
 def check(run):
@@ -300,12 +334,16 @@ def check(run):
                'conversion results inserted by operator<< are those of C01/C03')
     L = own.stream_layout(m)
     run.need(L is not None, 'layout of ST::string_stream not recognised (expected {char*, size_t, size_t, char[N]})')
+    nf, direct, derived = funnel(run, m, F, E, L)
+    run.floor('operator<< overloads', nf, 20)
     ms = [f for f in owner_methods(m, F, E, L)]
-    core = [f for f in ms if method_kind(f) != 'insert']
+    # members that write the stream only through verified members inherit the invariant from them (induction over operations);
+    # the ones with stores of their own are interpreted
+    core = [f for f in ms if method_kind(f) != 'insert' and f.name not in derived]
     run.floor('mutating members of string_stream (excluding operator<<)', len(core), 9)
     total = 0
     for f in core:
         total += analyse(run, m, F, E, L, f)
+    for f in direct:
+        total += analyse(run, m, F, E, L, f)
     run.counts['abstract runs (method x scenario)'] = total
-    nf = funnel(run, m, F, E, L)
-    run.floor('operator<< overloads', nf, 20)
